@@ -241,6 +241,26 @@ def gen(rng, shard, nshards, n_ed, n_p256, table, rms):
                                ["ux-index-sweep"] + (["ux-index-sweep:j=0"] if j == 0 else []) + (["ux-index-sweep:j=16383+"] if j >= 16383 else []), "table index sweep"))
         if want:
             cases.append(case1("ping", "ORACLE-INCOMPLETE: %d table indices not reached by grinding" % len(want), ["ux-index-sweep-incomplete"]))
+        # large rm: the baby-step walk is long (I = 2^(rm-19) points, normalised in batches of 200); valid signatures whose hidden
+        # part is a pure baby step (table index 0: the walk reaches the neutral point itself) at a position beyond the first
+        # batches, and just below / above it. S - 2^251 < 2^237 has probability 2^-15: found by grinding the message.
+        rm_l = [27, 28, 29, 30, 31, 32][shard % 6]
+        n_l = 256 - rm_l
+        found_l = []
+        ctr = 0
+        while len(found_l) < 2 and ctr < 400000:
+            M = pre + b"L" + ctr.to_bytes(4, "little")
+            ctr += 1
+            k_ = int.from_bytes(_hl.sha512(Rb + Ab + M).digest(), "little") % L
+            S_ = (r_ + k_ * a_) % L
+            d_ = S_ - (1 << 251)
+            if 0 <= d_ < (1 << 237) and (d_ >> n_l) >= 200:
+                found_l.append((M, S_, d_ >> n_l))
+        for (M, S_, ai) in found_l:
+            sig = Rb + S_.to_bytes(32, "little")
+            inp = overwrite_last_bits(sig, rm_l, rng.choice(["zero", "ones", "random"]), rng)
+            cases.append(case1("s ed25519 vtrunc %s %s %d raw - %s" % (Ab.hex(), inp.hex(), rm_l, M.hex()), expect_ed(Ab, inp, rm_l, M, None, False, sig),
+                               ["walk-reaches-neutral-beyond-first-batch", "walk-reaches-neutral:rm=%d" % rm_l], "pure baby step"))
     # ---- constructed table hits on invalid input ----
     for it in range(max(2, n_ed // 25)):
         rm = rng.choice(rms)
@@ -255,7 +275,7 @@ def gen(rng, shard, nshards, n_ed, n_p256, table, rms):
         if fm is not None:
             Q, inp, hv, (i, j) = fm
             cases.append(case1("s p256 vtrunc %s %s %d %s" % (W.P256.encode_compressed(Q).hex(), inp.hex(), rm, hv.hex()), expect_p256(Q, inp, rm, hv, None),
-                               ["false-match-p256", "kept-bits-wrap-above-L", "p256-xseq:n=199", "p256-xseq:n=200", "p256-xseq:n=0", "p256-xseq:passes-through-infinity", "p256-xseq:P0=P1", "p256-xseq:P0-infinite", "structured-s:kept-bits-all-zero", "structured-s:hidden-part-zero", "structured-s:hidden-part-all-ones", "structured-s:baby-index-zero",
+                               ["false-match-p256", "kept-bits-wrap-above-L", "walk-reaches-neutral-beyond-first-batch", "p256-xseq:n=199", "p256-xseq:n=200", "p256-xseq:n=0", "p256-xseq:passes-through-infinity", "p256-xseq:P0=P1", "p256-xseq:P0-infinite", "structured-s:kept-bits-all-zero", "structured-s:hidden-part-zero", "structured-s:hidden-part-all-ones", "structured-s:baby-index-zero",
                     "structured-s:giant-index-max", "false-match-p256:" + ("j=0" if j == 0 else "j>0")], "constructed 48-bit table hit"))
     # ---- Ed25519 ----
     for it in range(n_ed):
